@@ -21,6 +21,7 @@ use emit_file::verif as hook;
 use serde::{Deserialize, Serialize};
 
 pub mod e2e;
+pub mod fuzz;
 pub mod gen;
 pub mod oracle;
 
